@@ -33,10 +33,11 @@ from xsdata.models.datatype import XmlDate, XmlDateTime, XmlDuration, XmlPeriod,
 
 
 # ------------------------------------------------------------------ model generation
-def gen_model(r, slices=("F1",), n_classes=None, prims=None):
+def gen_model(r, slices=("F1",), n_classes=None, prims=None, uniform_ns=False):
     slices = set(slices)
     prims = list(prims or PRIMS)
     n = n_classes or r.randint(1, 5)
+    module_ns = r.choice(NS) if uniform_ns else r.choice([None, None] + NS)
     enums = []
     if "enum" in prims:
         for i in range(r.randint(1, 2)):
@@ -47,11 +48,12 @@ def gen_model(r, slices=("F1",), n_classes=None, prims=None):
                 members = [(f"M{j}", j * 7 - 3) for j in range(r.randint(1, 4))]
                 enums.append({"name": f"E{i}", "base": "int", "members": members})
     classes = []
-    module_ns = r.choice([None, None] + NS)
     for i in range(n):
         c = {"name": f"C{i}", "fields": [], "meta": {}, "base": None}
         k = r.random()
-        if k < 0.45:
+        if uniform_ns:
+            c["meta"]["namespace"] = module_ns       # one namespace for elements and types alike
+        elif k < 0.45:
             c["meta"]["namespace"] = r.choice(NS + [""])
         if r.random() < 0.3:
             c["meta"]["name"] = r.choice(["root", "item", "Thing", "x-y", "a.b"]) + str(i)
@@ -116,18 +118,30 @@ def gen_model(r, slices=("F1",), n_classes=None, prims=None):
             if r.random() < 0.5:
                 host["fields"].append({"name": "u1", "kind": "Element", "type": ("punion", ["int", "str"]),
                                        "optional": True, "list": r.random() < 0.4})
-    if "F3" in slices and len(classes) >= 2 and r.random() < 0.6 and not classes[-1].get("twin"):
-        # make the last class a subclass of the one before it, used through xsi:type
-        sub, base = classes[-1], classes[-2]
-        refs_sub = any(fl.get("type") == ("class", sub["name"]) or any(ch["type"] == ("class", sub["name"]) for ch in fl.get("choices", []))
-                       for fl in base["fields"])
-        if not refs_sub and sub.get("simple") == base.get("simple") \
-                and not (sub.get("simple") and any(f["kind"] == "Text" for f in base["fields"]) and any(f["kind"] == "Text" for f in sub["fields"])) \
-                and not any(f["kind"] in ("Wildcard", "Attributes") for f in base["fields"] + sub["fields"]):
-            sub["base"] = base["name"]
-            for f in sub["fields"]:
-                f["name"] = "g" + f["name"][1:]          # do not override inherited fields
-            # dataclass inheritance: subclass fields need defaults if base has defaults -> all fields get defaults (see render)
+    if "F3" in slices and r.random() < 0.7:
+        # a subclass used through xsi:type: pick a class that some Element field refers to and derive from it
+        referenced = []
+        for c in classes:
+            for f in c["fields"]:
+                if f["kind"] == "Element" and f.get("type", ("", ""))[0] == "class":
+                    referenced.append(f["type"][1])
+        cands = [c for c in classes if c["name"] in referenced and not c.get("twin")
+                 and not any(f["kind"] in ("Wildcard", "Attributes") for f in c["fields"])]
+        if cands:
+            base = r.choice(cands)
+            sub = {"name": f"C{len(classes)}", "meta": {}, "base": base["name"], "simple": base.get("simple"), "fields": []}
+            if "namespace" in base["meta"] and r.random() < 0.7:
+                sub["meta"]["namespace"] = base["meta"]["namespace"]
+            elif r.random() < 0.3 and not uniform_ns:
+                sub["meta"]["namespace"] = r.choice(NS)
+            for j in range(r.randint(1, 2)):
+                tp = gen_type(r, [p for p in prims if p != "enum"], enums, [])
+                kind = "Attribute" if base.get("simple") or r.random() < 0.5 else "Element"
+                f = {"name": f"g{j}", "kind": kind, "type": tp, "optional": True, "list": False}
+                if tp[0] == "prim" and tp[1] in ("hex", "b64"):
+                    f["format"] = "base16" if tp[1] == "hex" else "base64"
+                sub["fields"].append(f)
+            classes.append(sub)
     return model
 
 
@@ -140,6 +154,8 @@ def gen_field(r, slices, prims, enums, later, j, used_text, c, simple=False):
         kinds = ["Element"] * 5 + ["Attribute"] * 3
         if "F2" in slices:
             kinds += ["Wildcard", "Attributes", "AnyType"]
+        if "FA" in slices:
+            kinds += ["AnyType", "AnyType"]
         if "F3" in slices:
             kinds += ["Elements"]
     kind = r.choice(kinds)
